@@ -209,6 +209,33 @@ _BLOCK_SPEC = {
 }
 
 
+def rule_canonical_first(ctx: Ctx) -> None:
+    """inverse.canonical-first: the block-wise synthesis assumes the reduced echelon form that canonical_form establishes (one pivot per
+    row, nothing below a pivot).  inverse_circuit therefore canonicalises its input *unconditionally* before the first block: the call is a
+    top-level statement of the function, in front of every loop.  A shortcut that skips it for tableaux that merely look reduced (ones on
+    the X diagonal) lets entries below the diagonal through, which no later block clears."""
+    repo = ctx.repo
+    m = repo.module(STABF)
+    fn = repo.anchor(STABF, "inverse_circuit")
+    ctx.touch(m, fn)
+    tab = func_params(fn)[0]
+    top = [i for i, st in enumerate(fn.body) if isinstance(st, ast.Assign) and isinstance(st.value, ast.Call)
+           and (call_attr(st.value) or getattr(st.value.func, "id", "")) == "canonical_form" and norm(st.targets[0]) == tab
+           and st.value.args and norm(st.value.args[0]) in (tab, f"{tab}.copy()")]
+    first_loop = next((i for i, st in enumerate(fn.body) if isinstance(st, (ast.For, ast.While))), None)
+    anywhere = [c for c in calls_in(fn) if (call_attr(c) or getattr(c.func, "id", "")) == "canonical_form"]
+    if top and first_loop is not None and top[0] < first_loop:
+        ctx.ok("inverse.canonical-first", m, fn.body[top[0]], what="canonical_form applied unconditionally before the first block")
+    elif anywhere:
+        ctx.fail("inverse.canonical-first", m, anywhere[0],
+                 f"inverse_circuit canonicalises its input only on some paths (`{short(parent(anywhere[0]), 60)}` is not an unconditional statement in front of the "
+                 f"blocks): a generating set that is skipped keeps entries below its pivots, which no block clears — e.g. +XYY, +YYX, -XZX (ones on the X "
+                 f"diagonal) is not mapped to |000>", func="inverse_circuit", construct="inverse_circuit: canonical_form is conditional")
+    else:
+        ctx.fail("inverse.canonical-first", m, fn, "inverse_circuit no longer canonicalises its input before the block-wise synthesis",
+                 func="inverse_circuit", construct="inverse_circuit: canonical_form missing")
+
+
 def rule_block_conditions(ctx: Ctx) -> None:
     """inverse.block-conditions: each elimination block of inverse_circuit (after the pivot-finding block) is a sweep `for j in range(n)`
     [`for k in range(j + 1, n)`] that tests one entry of the tableau and applies one operation.  Which entry (row / column pattern),
@@ -573,6 +600,7 @@ def run(ctx: Ctx) -> None:
     rule_graph_tableau_whole(ctx)
     rule_pivot_found(ctx)
     rule_block_conditions(ctx)
+    rule_canonical_first(ctx)
     from ..rules import echelon as _echelon
     _echelon.rule_elim_direction(ctx)
     tm = repo.module(TR)
@@ -621,6 +649,7 @@ def _edit_pauli_at(src: str) -> str:
 
 
 KNOCKOUTS = [
+    Knockout("canonical-form-skipped-for-unit-diagonal", STABF, sub_once("    tableau = canonical_form(tableau)\n", "    if not np.all(np.diag(tableau.x_matrix) == 1):\n        tableau = canonical_form(tableau)\n"), "inverse.canonical-first", "conditional"),
     Knockout("cnot-block-helper-misses-y", STABF, _edit_pauli_at, "inverse.block-conditions", "CNOT block"),
     Knockout("run-circuit-cnot-arguments-swapped", TR, sub_once("            tableau = cnot_gate(tableau, ops[1], ops[2])", "            tableau = cnot_gate(tableau, ops[2], ops[1])"), "reverse.table", "arguments"),
     Knockout("cz-block-condition-or", STABF, sub_once("            if tableau.x_matrix[j, k] == 0 and tableau.z_matrix[j, k] == 1:\n                circuit_list.append((\"CZ\", j, k))", "            if tableau.x_matrix[j, k] == 0 or tableau.z_matrix[j, k] == 1:\n                circuit_list.append((\"CZ\", j, k))"), "inverse.block-conditions", "CZ block"),
